@@ -82,9 +82,9 @@ impl Terminal for RecTerm {
 
 // ------------------------------------------------------------------ alphabet
 
-pub const KIND_NAMES: [&str; 17] = [
+pub const KIND_NAMES: [&str; 19] = [
     "blank", "a", "a/red", "blank/red", "blank/underline", "wide", "wide/red", "img1x1", "img1x2", "img1x1'", "glyph1x2", "img2x1",
-    "glyph1x2/underline", "glyphB1x1", "glyph1x2/framed", "U+3000", "U+1680",
+    "glyph1x2/underline", "glyphB1x1", "glyph1x2/framed", "U+3000", "U+1680", "tileA", "tileB",
 ];
 
 
@@ -143,6 +143,11 @@ impl Alphabet {
             assert_ne!(img_id(&glyph.rasterize(red(), size)), img_id(&glyph_framed.rasterize(red(), size)), "framed glyph must look different");
             assert_ne!(img_id(&glyph.rasterize(red(), size)), img_id(&glyph.rasterize(under, size)), "glyph under another face must look different");
         }
+        // two tiles of one sprite sheet: same size, same backing buffer, different offset and content
+        let sheet = image(2, 4, 5);
+        let tile_a = sheet.crop(.., 0..2);
+        let tile_b = sheet.crop(.., 2..4);
+        assert_ne!(img_id(&tile_a), img_id(&tile_b));
         let ptrs = vec![
             (7, i1.data().as_ptr() as usize),
             (8, i2.data().as_ptr() as usize),
@@ -168,6 +173,8 @@ impl Alphabet {
             // white space other than U+0020: a wide one and a narrow one with a visible stroke
             Cell::new_char(Face::default(), '\u{3000}'),
             Cell::new_char(Face::default(), '\u{1680}'),
+            Cell::new_image(tile_a),
+            Cell::new_image(tile_b),
         ];
         Alphabet { cells, ptrs }
     }
@@ -179,7 +186,7 @@ impl Alphabet {
     /// (height, width) in cells of the area an image-like kind covers
     fn area(kind: usize) -> Option<(usize, usize)> {
         match kind {
-            7 | 9 | 13 => Some((1, 1)),
+            7 | 9 | 13 | 17 | 18 => Some((1, 1)),
             8 | 10 | 12 | 14 => Some((1, 2)),
             11 => Some((2, 1)),
             _ => None,
@@ -618,6 +625,10 @@ pub fn grids(tier: Tier) -> Vec<(Grid, usize, bool)> {
             (g(1, 6, &long), 6, false),
             (g(1, 3, &vec![0, 1, 7, 10, 12, 13, 14]), 6, true),
             (g(1, 3, &vec![0, 1, 2, 5, 15, 16]), 6, false),
+            (g(1, 3, &vec![0, 1, 7, 17, 18]), 6, true),
+            // more rows than columns
+            (g(3, 1, &vec![0, 1, 3, 7, 11, 17]), 6, false),
+            (g(3, 2, &vec![0, 1, 11]), 6, false),
         ],
         Tier::Thorough => vec![
             (g(1, 1, &all), 8, true),
@@ -632,6 +643,10 @@ pub fn grids(tier: Tier) -> Vec<(Grid, usize, bool)> {
             (g(2, 2, &vec![0, 1, 10, 12, 13, 14]), 8, false),
             (g(1, 4, &vec![0, 1, 2, 5, 15, 16]), 8, true),
             (g(2, 2, &vec![0, 1, 5, 15, 16]), 8, false),
+            (g(1, 4, &vec![0, 1, 7, 17, 18]), 8, true),
+            (g(4, 1, &vec![0, 1, 3, 7, 11, 17]), 8, true),
+            (g(3, 2, &vec![0, 1, 3, 7, 8, 11]), 8, false),
+            (g(4, 2, &vec![0, 1, 7, 11]), 8, false),
         ],
     }
 }
@@ -678,7 +693,7 @@ pub fn run(ctx: &Ctx) -> Result<Report, String> {
         .set("samples", samples.into_vec());
     r.assume("VT semantics of model/screen.rs (xterm/ECMA-48/kitty): ECH erases with the current background only; overwriting half of a wide character blanks the other half keeping its rendition");
     r.assume("display width as defined by unicode-width (the library's own definition)");
-    r.assume("grids up to the listed sizes and the 17 cell kinds; every transition is a real TerminalRenderer::frame call");
+    r.assume("grids up to the listed sizes and the 19 cell kinds; every transition is a real TerminalRenderer::frame call");
     r.violations = viol.into_vec();
     Ok(r)
 }
